@@ -19,7 +19,7 @@ struct Behaviour {
     needs_eof: bool,
 }
 
-const BEHAVIOURS: [Behaviour; 11] = [
+const BEHAVIOURS: [Behaviour; 12] = [
     // the program cannot be started at all: the forked child of the attempt is nobody's to reap but the handle's
     Behaviour { name: "fails-to-start", script: "x0", produces: 0, needs_eof: false },
     // closes its stdin at once (the parent's input runs into EPIPE), then writes more than a pipe holds
@@ -33,6 +33,9 @@ const BEHAVIOURS: [Behaviour; 11] = [
     Behaviour { name: "unbounded-writer", script: "w@:4000000000:65536,x0", produces: 4_000_000_000, needs_eof: false },
     // `while :; do echo ...; done`: ignores write errors, so closing the read end releases it only through SIGPIPE
     Behaviour { name: "writes-forever-ignoring-errors", script: "Z@", produces: 4_000_000_000, needs_eof: false },
+    // job control: the child is stopped for a while (suspended, not terminated), continues and exits: it is waited for
+    // until it has really terminated
+    Behaviour { name: "stopped-for-a-while-then-exits", script: "T40,x7", produces: 0, needs_eof: false },
     Behaviour { name: "reads-then-writes", script: "R,w@:200000:4096,x0", produces: 200000, needs_eof: true },
 ];
 
